@@ -375,3 +375,37 @@ example :
   decide
 
 end C15
+
+
+/-! ### No style given on the command line is turned into a `syntax` style -/
+namespace C15
+open Superimpose Generated.Superimpose
+
+/-- A style option given on the command line reaches the painter exactly as written: the
+side-by-side HACK of `set_options` never rewrites it (so a `normal …` style stays one that does
+not ask for `syntax`). Breaks when the generated table makes the rewrite of one option depend
+on another option's presence. -/
+theorem command_line_style_never_rewritten (sideBySide : Bool) (userSupplied : String → Bool)
+    (name : String) (value : List Char) (h : userSupplied name = true) :
+    sbsRewrite sideBySide userSupplied name value = value := by
+  have own : ∀ e ∈ sbsStyleRewrites, e.2 = [e.1] := by decide
+  unfold sbsRewrite
+  cases hf : sbsStyleRewrites.find? (fun e => e.1 == name) with
+  | none => rfl
+  | some e =>
+    have hm := List.mem_of_find?_eq_some hf
+    have hn : e.1 = name := by simpa using List.find?_some hf
+    simp [own e hm, hn, h]
+
+/-- Without side-by-side nothing is rewritten at all; and only `normal …` values ever are. -/
+theorem style_rewrite_only_side_by_side (userSupplied : String → Bool) (name : String)
+    (value : List Char) : sbsRewrite false userSupplied name value = value := by
+  unfold sbsRewrite
+  cases sbsStyleRewrites.find? (fun e => e.1 == name) <;> simp
+
+example : sbsRewrite true (fun n => n == "minus_emph_style") "minus_style" "normal 52".toList =
+    "syntax 52".toList ∧
+    sbsRewrite true (fun n => n == "minus_emph_style") "minus_emph_style" "normal 88".toList =
+    "normal 88".toList := by decide
+
+end C15
